@@ -1,10 +1,11 @@
 //! This module defines the translation of let-bindings.
 
 use crate::{
-    compile::{Compile, CompileState},
+    compile::{Compile, CompileState, binders_occur_free},
     types::compile_ty,
 };
 use core_lang::syntax::{names::Identifier, terms::Cns};
+use fun::syntax::types::OptTyped;
 
 use std::rc::Rc;
 
@@ -22,6 +23,21 @@ impl Compile for fun::syntax::terms::Let {
         cont: core_lang::syntax::terms::Term<Cns>,
         state: &mut CompileState,
     ) -> core_lang::syntax::Statement {
+        // if the bound variable occurs free in the continuation, we must not move the continuation
+        // underneath the binder, so we cut against it instead: <μa.〚let x := t_1; t_2 〛_{a} | c>
+        if binders_occur_free(&[&self.variable], &cont) {
+            let let_ty = compile_ty(
+                &self
+                    .get_type()
+                    .expect("Types should be annotated before translation"),
+            );
+            return core_lang::syntax::statements::Cut {
+                producer: Rc::new(self.compile(state, let_ty.clone())),
+                ty: let_ty,
+                consumer: Rc::new(cont),
+            }
+            .into();
+        }
         let ty = compile_ty(&self.var_ty);
         // new continuation: μ~x.〚t_2 〛_{c}
         let new_cont = core_lang::syntax::terms::Mu {
